@@ -108,6 +108,10 @@ def run(prog, rep, tier, cfg):
             okn = not F.ok_returns_from([t for (t, _l) in F.succ[subs[0].bb]], removed=[X.edge(cc, arm)])
         rep.need('K6b', '%s:non-negative' % fn_.split('::')[-1], okn, 'after the decrease, a negative locked_funds must be an error', X.loc(F))
     AL = X.fn('state::State::add_locked_funds', CR)
+    # adding to the vesting table also releases what had vested: the ledger goes down by that amount and up by the new sum
+    subs = [c for c in AL.calls if (c.defp or '').endswith('SubAssign::sub_assign') and X.updates_field(c, 'State', 'locked_funds')]
+    rep.need('K10', 'add_locked_funds:ledger-decrease', len(subs) == 1 and has_atom(prog.narrow.operand(AL, subs[0].args[1]), 'C:VestingFunds::add_locked_funds'),
+             'locked_funds decreases by what the vesting table released while adding (found %d `-=` sites)' % len(subs), X.loc(AL))
     adds = [c for c in AL.calls if (c.defp or '').endswith('AddAssign::add_assign') and X.updates_field(c, 'State', 'locked_funds')]
     rep.need('K10', 'add_locked_funds:ledger-increase', len(adds) == 1 and has_atom(prog.narrow.operand(AL, adds[0].args[1]), 'P:4'), 'locked_funds increases by the vesting sum', X.loc(AL))
     X.guard('K6b', 'add_locked_funds:non-negative-sum', AL, [c.bb for c in AL.calls if callee_is('vesting_state::VestingFunds::add_locked_funds')(c)], m_pred('is_negative', ['P:4'], False), 'negative vesting sum => Err')
